@@ -849,7 +849,7 @@ func (k c24Case) checkConn(c *core.Ctx, r *tlspair.Result, conn string, expectRe
 			c.Count("client_refused_config", 1)
 			return cs, ss, false
 		}
-		c.Violation("harness:clienthello_unparsable", "independent parser failed on the tapped ClientHello", id, mk(""))
+		undecided(c, "harness:clienthello_unparsable", "independent parser failed on the tapped ClientHello", id, mk(""))
 		return cs, ss, false
 	}
 	c.Count("class:"+m.Class, 1)
@@ -1188,12 +1188,12 @@ func (k c24Case) runMITM(c *core.Ctx) {
 	// sanity: the rewritten hello really offers at most T
 	ch2, ok2 := firstClientHello(r.Tap)
 	if !ok2 || !ch2.OK {
-		c.Violation("harness:mitm_rewrite_broke_clienthello", "rewritten ClientHello does not parse", id, obs)
+		undecided(c, "harness:mitm_rewrite_broke_clienthello", "rewritten ClientHello does not parse", id, obs)
 		return
 	}
 	for _, v := range ch2.SupVersions {
 		if v > T {
-			c.Violation("harness:mitm_rewrite_incomplete", fmt.Sprintf("supported_versions %s after rewrite to %s", hexList(ch2.SupVersions), vname(T)), id, obs)
+			undecided(c, "harness:mitm_rewrite_incomplete", fmt.Sprintf("supported_versions %s after rewrite to %s", hexList(ch2.SupVersions), vname(T)), id, obs)
 			return
 		}
 	}
